@@ -102,7 +102,13 @@ def default_shrink(case):
 def run_case(mod, campaign, case):
     """Run one concrete case; returns RunCtx.  HarnessError propagates."""
     ctx = RunCtx(mod.PROPERTY)
+    from sim import invoker
+    invoker.setup()
+    invoker.reset_state()      # nothing an earlier run of this worker left inside bumpver's modules carries over
     campaign.run(case, ctx)
+    leaked = invoker.reset_state()
+    if leaked:
+        ctx.count("module_state_mutated_by_run", leaked)
     return ctx
 
 
